@@ -482,7 +482,7 @@ def real_entity_to_dict_misc(person2: bool, wc: bool, wl: bool, ro: bool, as_tex
     from pony.orm import db_session, rollback
     _fresh()
     fix = PERSON2 if person2 else PERSON1
-    only, exclude = (_options(True, True, o1, o2, e0) if as_text else (None, None))
+    only, exclude = (_options(o2, True, o1, o2, e0) if as_text else (None, None))          # (o2 False: exclude given as text WITHOUT only)
     sep = ', ' if comma else ' '
     with db_session:
         try:
